@@ -310,7 +310,7 @@ with p_compound (n : nat) (ts : list token) (hs : list hbody) {struct n} : pres 
         | w :: r1 =>
           if is K_WORD w then
             bind (_u, ts2, hs2) <- expect K_RAE r1 hs;
-            POk (B "arith" ++ sk_word (tw w)) ts2 hs2
+            POk (B "arith" ++ sk_word_arith (tw w)) ts2 hs2
           else PErr (Some (tidx w))
         | [] => PErr None
         end
